@@ -114,7 +114,8 @@ def flat_rows(ds, g, dim=None):
     npts = ds.sizes[dim]
     for local in data_vars_dim(ds, g, dim):
         v = ds[f"{g}/{local}"]
-        a = np.asarray(v.transpose(dim, ...).values, dtype=float).reshape(npts, -1)
+        a = np.asarray(v.transpose(dim, ...).values, dtype=float)
+        a = a.reshape(npts, int(np.prod(a.shape[1:], dtype=int)))
         cols.append(a)
         layout.append((local, a.shape[1]))
     rows = np.concatenate(cols, axis=1) if cols else np.zeros((npts, 0))
